@@ -50,7 +50,7 @@ DoReset ==
   LET n == R.n IN
   /\ dts' = PadTo(R.dts, N, <<>>)
   /\ shape' = PadTo(R.shape, N, "ok")
-  /\ wpc' = [w \in W |-> IF w > n THEN "ret" ELSE IF w \in TMPW THEN "create" ELSE "run"]
+  /\ wpc' = [w \in W |-> IF w > n THEN "ret" ELSE IF w \in TMPW THEN FirstPc ELSE "run"]
   /\ wi' = [w \in W |-> 0] /\ ri' = [w \in W |-> 0]
   /\ closed' = [w \in W |-> w > n] /\ rdrop' = [w \in W |-> FALSE]
   /\ live' = 1..n
@@ -108,6 +108,8 @@ TSpawn == Ev("Spawn") /\ Adv /\ PW \in live /\ Stutter /\ TUNCH
 TTempCreate == Ev("TempCreate") /\ Adv /\ WCreate(TW) /\ TUNCH
 \* silent: creation refused after the handler closed the list (the worker then reports an open error)
 TCreateRefused(w) == More /\ WCreateRefused(w) /\ UNCHANGED l /\ TUNCH
+\* silent: the unlocked "list closed?" test
+TCheck(w) == More /\ WCheck(w) /\ UNCHANGED l /\ TUNCH
 TTempRegister == Ev("TempRegister") /\ Adv /\ WRegister(TW) /\ TUNCH
 TReaderDrop == Ev("ReaderDrop") /\ Adv /\ (IF TW \in TMPW THEN WDrop(TW) ELSE Stutter) /\ TUNCH
 TWReturn ==
@@ -207,7 +209,7 @@ TAfterExit == More /\ exited /\ R.ev # "Reset" /\ Adv /\ Stutter /\ TUNCH
 TNext ==
   \/ TReset \/ TAfterExit
   \/ TSendStart \/ (\E w \in W : TEnqueue(w)) \/ TSendDone \/ TWStart \/ TSpawn
-  \/ TTempCreate \/ TTempRegister \/ (\E w \in W : TCreateRefused(w)) \/ TReaderDrop \/ TWReturn
+  \/ TTempCreate \/ TTempRegister \/ (\E w \in W : TCreateRefused(w) \/ TCheck(w)) \/ TReaderDrop \/ TWReturn
   \/ TEnterSel \/ TDequeue \/ TDisc \/ TRecv \/ TSelNone \/ TFiAll \/ TFirstPrint
   \/ TPrint \/ TPrinted \/ TAddNl \/ TRemove \/ TLoopExit \/ TTotals \/ TReturn \/ TExitEarly \/ TSweep \/ TMainExit
   \/ TSigRaise \/ TFilters \/ TStage1 \/ TPlanAbandoned \/ THStart \/ THLock \/ THCleared \/ THNtfLock \/ THRemoved \/ THFlag
